@@ -150,7 +150,7 @@ def build(chk):
                 else:
                     want = sf.denote(lambda i: allv[i].r)
                     d = r_sub(res.f[0].f[0].r, want)
-                    conj.append(abs(d) <= tol if isinstance(d, Fraction) else z3.And(d <= z3real(tol), -d <= z3real(tol)))
+                    conj.append(within(d, Fraction(0), tol))
             if fids & fixed_keys:
                 P.cover('some-variable-fixed')
             P.require('commutes', b_and(*conj), witness)
